@@ -777,6 +777,10 @@ def r35(facts, res):
             return ('tuple', [ev(x, m) for x in t[1]])
         if k == 'bin':
             a, c = ev(t[2], m), ev(t[3], m)
+            if t[1] in ('Eq', 'Ne') and isinstance(a, tuple) and isinstance(c, tuple) and a[0] == 'tuple' and c[0] == 'tuple' and len(a[1]) == len(c[1]) \
+                    and all(isinstance(x, int) for x in a[1] + c[1]):
+                same = all(x == y for x, y in zip(a[1], c[1]))        # (a, b) == (c, d)
+                return int(same == (t[1] == 'Eq'))
             if not isinstance(a, int) or not isinstance(c, int):
                 raise Unknown()
             return {'Eq': int(a == c), 'Ne': int(a != c), 'Lt': int(a < c), 'Le': int(a <= c)}[t[1]]
